@@ -32,11 +32,15 @@ def explicitBody : List Ev → Bool
     | .producersLookup => explicitBody es
     | _ => false
 
-/-- what may follow `.lock`: the deferred unlock immediately (then no further lock operation, and
-    the body ends in a return), or a body that unlocks explicitly as its last act -/
+/-- what may follow `.lock`: the deferred unlock immediately, then a body with no further lock
+    operation and exactly ONE return, which is its last event; or a body that unlocks explicitly as
+    its last act (`explicitBody`: no lock operation and no return before the `unlock`, nothing but
+    the single `ret` after it) -/
 def afterLock : List Ev → Bool
   | .deferUnlock :: body =>
-    body.all (fun e => e ≠ .lock ∧ e ≠ .unlock ∧ e ≠ .deferUnlock) && body.getLast? == some .ret
+    match body.reverse with
+    | .ret :: mid => mid.all (fun e => e ≠ .lock ∧ e ≠ .unlock ∧ e ≠ .deferUnlock ∧ e ≠ .ret)
+    | _ => false
   | rest => explicitBody rest
 
 /-- before `.lock` only the whitelisted producers-map lookup and pure code (panic / fmt.Errorf) -/
@@ -142,12 +146,21 @@ theorem lock_facts_well_locked :
     lockFacts.all wellLocked = true := by decide
 
 open Gen.LockFacts in
-/-- the predicate is not vacuous: it rejects a body without the lock, one that reads before the
-    lock, and one that unlocks before reading -/
-example : wellLocked ⟨"a", [.producersLookup, .access "producer.Value()", .ret]⟩ = false
-    ∧ wellLocked ⟨"b", [.access "producer.Value()", .lock, .deferUnlock, .ret]⟩ = false
-    ∧ wellLocked ⟨"c", [.lock, .unlock, .access "producer.Value()", .ret]⟩ = false
-    ∧ wellLocked ⟨"d", [.lock, .access "producer.Value()", .unlock, .ret]⟩ = true := by decide
+/-- the predicate is not vacuous: it rejects the event lists the extractor produces for the mutants
+    of tools/c13_extractor_selftest.sh that it can extract — no lock (07), access before the lock
+    (04, 06), unlock before the access (03) — and shapes a flattening extractor could produce:
+    a second return with an access after the first, a second lock, an access after the unlock;
+    it accepts the benign explicit unlock (08) -/
+example : wellLocked ⟨"07", [.producersLookup, .pure "panic", .access "producer.Value()", .ret]⟩ = false
+    ∧ wellLocked ⟨"04", [.producersLookup, .access "producer.Value()", .lock, .deferUnlock, .ret]⟩ = false
+    ∧ wellLocked ⟨"06", [.access "i.Parameter(nodeId)", .access "ApplyMessage(data)", .lock, .deferUnlock,
+                         .access "i.incModelVersion()", .ret]⟩ = false
+    ∧ wellLocked ⟨"03", [.lock, .unlock, .access "producer.Value()", .ret]⟩ = false
+    ∧ wellLocked ⟨"b", [.lock, .deferUnlock, .access "producer.Value()", .ret, .access "producer.Value()", .ret]⟩ = false
+    ∧ wellLocked ⟨"2xlock", [.lock, .deferUnlock, .lock, .access "producer.Value()", .ret]⟩ = false
+    ∧ wellLocked ⟨"after", [.lock, .access "x", .unlock, .access "producer.Value()", .ret]⟩ = false
+    ∧ wellLocked ⟨"early", [.lock, .access "x", .ret, .unlock, .ret]⟩ = false
+    ∧ wellLocked ⟨"08", [.lock, .access "producer.Value()", .unlock, .ret]⟩ = true := by decide
 
 variable {V : Type} [DecidableEq V] {F : Nat}
 
@@ -188,7 +201,7 @@ theorem linearizable' (g0 : Graph V) (s : Sys V) (h : Exec F g0 s) : Linearizabl
     from a never-evaluated graph, the response of an `Artifact` call is the from-scratch
     evaluation `Spec` of ONE state — the one its linearization point sees, i.e. the state reached
     by the operations linearized before it -/
-theorem artifact_snapshot (g0 : Graph V) (h0 : Init F g0) (hist : List (Event V)) (S : List (LOp V))
+theorem artifact_snapshot (g0 : Graph V) (h0 : Init F g0) (hra : ReadsAll g0) (hist : List (Event V)) (S : List (LOp V))
     (hS : Linearization F g0 hist S) (pre post : List (LOp V)) (o : LOp V) (i : Nat)
     (hsplit : S = pre ++ o :: post) (hcall : o.call = .artifact i) :
     o.resp = .val (Spec F (replay F g0 (pre.map (·.call))).1 i) := by
@@ -202,7 +215,7 @@ theorem artifact_snapshot (g0 : Graph V) (h0 : Init F g0) (hist : List (Event V)
   have h2 := (List.append_inj hl hlen).2
   simp only [replay, List.cons.injEq] at h2
   rw [← h2.1, hcall]
-  exact artifact_spec (replay_inv h0.inv _) i
+  exact artifact_spec (replay_inv (h0.inv hra) _) i
 
 /-- likewise a `ParameterData` call returns the value its linearization point sees -/
 theorem paramData_snapshot (g0 : Graph V) (hist : List (Event V)) (S : List (LOp V))
@@ -261,11 +274,12 @@ theorem spec_depends_on_statics (g g' : Graph V) (hac : Acyclic F g) (hs : SameS
 
 /-- soundness of the executable check the driver runs on the order found by its (untrusted) search -/
 theorem witness_check_sound (g0 : Graph V) (h : List (Event V)) (S : List (LOp V))
-    (hc : checkWitness F g0 h S = true) : Linearizable F g0 h := by
-  simp only [checkWitness, Bool.and_eq_true, decide_eq_true_eq, List.all_eq_true, Bool.or_eq_true,
-    Bool.not_eq_true'] at hc
-  obtain ⟨⟨⟨⟨h1, h2⟩, h3⟩, h4⟩, h5⟩ := hc
-  refine ⟨S, h1, h2, ?_, ?_, h5⟩
+    (hc : checkWitness F g0 h S = true) : wfHist h = true ∧ Linearizable F g0 h := by
+  unfold checkWitness at hc
+  simp only [Bool.and_eq_true] at hc
+  obtain ⟨⟨⟨⟨⟨h0, h1⟩, h2⟩, h3⟩, h4⟩, h5⟩ := hc
+  simp only [decide_eq_true_eq, List.all_eq_true, Bool.or_eq_true, Bool.not_eq_true'] at h1 h2 h3 h4 h5
+  refine ⟨h0, S, h1, h2, ?_, ?_, h5⟩
   · intro e he id r heq
     subst heq
     have := h3 _ he
@@ -281,8 +295,8 @@ theorem witness_check_sound (g0 : Graph V) (h : List (Event V)) (S : List (LOp V
 omit [DecidableEq V] in
 /-- the evaluation micro-steps, run without interference, are exactly `Eval` (so the split used
     below is faithful to `process()`) -/
-theorem micro_uninterrupted (g : Graph V) (hac : Acyclic F g) (i : Nat) (s : SNode V) (hs : g i = .struct s)
-    (ho : Outdated F g i = true) :
+theorem micro_uninterrupted (g : Graph V) (hac : Acyclic F g) (hra : ReadsAll g) (i : Nat) (s : SNode V)
+    (hs : g i = .struct s) (ho : Outdated F g i = true) :
     (microRun F i s (g, []) (s.deps.map .pull ++ [.finish])).1 = (Eval F g i).1 := by
   obtain ⟨rank, hwf⟩ := hac
   have hgen : ∀ (ds : List Nat) (g1 : Graph V) (vals : List V),
@@ -297,7 +311,7 @@ theorem micro_uninterrupted (g : Graph V) (hac : Acyclic F g) (i : Nat) (s : SNo
       simp only [microRun] at this
       rw [this]
       simp
-  rw [Eval_eq g hwf, hs]
+  rw [Eval_eq_all g hwf hra, hs]
   simp only [ho, if_true, microRun, List.foldl_append, List.foldl_cons, List.foldl_nil]
   have := hgen s.deps g []
   simp only [microRun] at this
@@ -411,8 +425,8 @@ theorem critical_section_atomic {σ : Type} (g0 : σ) (s : GSys σ) (h : GExec g
 omit [DecidableEq V] in
 /-- the micro-steps of `Artifact(i)`, applied one after the other with nothing in between, are
     exactly the sequential specification's `Eval` -/
-theorem artifactTrace_eval (g : Graph V) (hac : Acyclic F g) (i : Nat) (s : SNode V) (hs : g i = .struct s)
-    (ho : Outdated F g i = true) :
+theorem artifactTrace_eval (g : Graph V) (hac : Acyclic F g) (hra : ReadsAll g) (i : Nat) (s : SNode V)
+    (hs : g i = .struct s) (ho : Outdated F g i = true) :
     (artifactTrace F i s g s.deps []).foldl (fun a f => f a) g = (Eval F g i).1 := by
   obtain ⟨rank, hwf⟩ := hac
   have hgen : ∀ (ds : List Nat) (g1 : Graph V) (vals : List V),
@@ -426,7 +440,7 @@ theorem artifactTrace_eval (g : Graph V) (hac : Acyclic F g) (i : Nat) (s : SNod
       simp only [artifactTrace, List.foldl_cons, pull]
       rw [ih]
       simp
-  rw [Eval_eq g hwf, hs]
+  rw [Eval_eq_all g hwf hra, hs]
   simp only [ho, if_true]
   rw [hgen]
   simp
@@ -435,10 +449,11 @@ omit [DecidableEq V] in
 /-- hence, with the lock: a client that performs the micro-steps of `Artifact(i)` inside its
     critical section leaves exactly `seqStep`'s state, whatever the other clients do meanwhile -/
 theorem locked_artifact_is_atomic (g0 : Graph V) (sy : GSys (Graph V)) (h : GExec g0 sy) (t : Tid)
-    (start : Graph V) (i : Nat) (s : SNode V) (hac : Acyclic F start) (hs : start i = .struct s)
+    (start : Graph V) (i : Nat) (s : SNode V) (hac : Acyclic F start) (hra : ReadsAll start)
+    (hs : start i = .struct s)
     (ho : Outdated F start i = true) (hpc : sy.pc t = .crit start (artifactTrace F i s start s.deps [])) :
     sy.g = (seqStep F start (.artifact i)).1 := by
-  rw [(critical_section_atomic g0 sy h).1 t start _ hpc, artifactTrace_eval start hac i s hs ho]
+  rw [(critical_section_atomic g0 sy h).1 t start _ hpc, artifactTrace_eval start hac hra i s hs ho]
   rfl
 
 /-- a concrete execution of the fine-grained system with two clients: client 0 is inside its
